@@ -53,10 +53,11 @@ func validateAllCriteriaAreGain(criteria *model.Criteria) {
 
 func validateAllWeightsAvailable(weights *model.Weights, criteria *model.Criteria) {
 	criteriaNames := criteria.Names()
-	requiredCriteriaCombinations := *PowerSet(*criteriaNames)
-	for _, rcc := range requiredCriteriaCombinations {
+	// one union at a time: the first missing weight ends the walk, so a request declaring many criteria
+	// without their 2^n weights is rejected at once instead of first allocating its whole power set
+	ForEachSubset(*criteriaNames, func(rcc []string) {
 		getWeightForCriteriaUnion(&rcc, weights)
-	}
+	})
 }
 
 const criteriaSeparator = ","
